@@ -235,7 +235,7 @@ theorem tagArgPart_length (args wm : Bytes) :
 /-- the tag alternative on a clean tag -/
 theorem tagRe_m (d : Delims) (hg : GoodDelims d) (name args : Bytes) (hl hr : Bool) (wl wm wr rest : Bytes)
     (hci : CleanItem d (.tag name args hl hr wl wm wr)) (hcc : CleanClose d (.tag name args hl hr wl wm wr))
-    (p mf : Nat) (hmf : wl.length + name.length + wm.length + args.length + wr.length ≤ mf) :
+    (p mf : Nat) (hmf : wl.length + name.length + (tagArgPart args wm).length + wr.length ≤ mf) :
     (tagReOf d).m mf ((Item.tag name args hl hr wl wm wr).spell d ++ rest) p [] kfin =
       some (p + ((Item.tag name args hl hr wl wm wr).spell d).length,
         tagCaps (p + (d.tl.length + ((hyB hl).length + wl.length))) name args wm) := by
@@ -302,10 +302,10 @@ theorem tagRe_m (d : Delims) (hg : GoodDelims d) (name args : Bytes) (hl hr : Bo
               exact units_m_prefix_none mf d.tr rest _ _ _ htrne
         rw [show tagArgPart [] wm = [] from rfl, List.nil_append, hX, eps_m]
         refine closer_ok mf d.tr wr rest hr _ _ kfin _ hwr (by omega) htr1 htr3 htrne ?_
-        simp only [kfin, tagCaps, if_true, tagArgPart, List.length_nil, List.length_cons, Option.some.injEq, Prod.mk.injEq,
-          List.cons.injEq, Cap.mk.injEq, and_true, true_and]
+        simp only [kfin, tagCaps, if_true, List.length_nil, List.length_cons, Option.some.injEq, Prod.mk.injEq, and_true]
         omega
       · obtain ⟨hwmne, hah, hal, hnps⟩ := hargs hane
+        have hta : (tagArgPart args wm).length = wm.length + args.length := by rw [tagArgPart_length, if_neg hane]
         have hfirst := hcc hane
         have hX : (Re.seq (Re.plus (.chr .space)) (.group 3 (Re.plusLazy (unitsRe d.tr)))).m mf
               (tagArgPart args wm ++ (wr ++ (hyB hr ++ (d.tr ++ rest)))) (q + wl.length + (ns.length + 1))
@@ -319,7 +319,7 @@ theorem tagRe_m (d : Delims) (hg : GoodDelims d) (name args : Bytes) (hl hr : Bo
           | cons w0 ws =>
             rw [List.cons_append]
             refine plusGreedy_all mf .space w0 ws _ _ _ _ _ (hwm w0 (List.mem_cons_self ..))
-              (fun x hx => hwm x (List.mem_cons_of_mem _ hx)) (headNot_append_of_ne hane hah) (by simp at hmf; omega) ?_
+              (fun x hx => hwm x (List.mem_cons_of_mem _ hx)) (headNot_append_of_ne hane hah) (by simp only [List.length_cons] at hta hmf; omega) ?_
             refine plusLazy_units_group mf 3 d.tr args _ _ _ _ _ hane (by omega) ?_ (noPrefixSuffix_spec hnps) ?_ ?_
             · intro i hi
               have := firstAt_drop hfirst rest i (by simp; omega)
@@ -328,7 +328,7 @@ theorem tagRe_m (d : Delims) (hg : GoodDelims d) (name args : Bytes) (hl hr : Bo
               exact closer_none mf d.tr args wr hr rest _ c' kfin hal hfirst i hi
             · refine closer_ok mf d.tr wr rest hr _ _ kfin _ hwr (by omega) htr1 htr3 htrne ?_
               simp only [kfin, tagCaps, if_neg hane, List.length_cons, Option.some.injEq, Prod.mk.injEq,
-                List.cons.injEq, Cap.mk.injEq, and_true, true_and, List.length_append]
+                and_true, List.length_append]
               omega
         rw [hX]
   cases hl with
